@@ -85,7 +85,7 @@ def score(seed):
     return 0
 
 
-def _score_in_worktree(seed):
+def _score_in_worktree(seed, patch_name="patch.diff"):
     """Like score(), but in a scratch worktree (so that several seeds can be scored at once); removed afterwards."""
     seed = os.path.abspath(seed)
     wt = tempfile.mkdtemp(prefix="seedscore_", dir="/tmp")
@@ -95,7 +95,7 @@ def _score_in_worktree(seed):
         rc, out = sh(f"git -C /repo worktree add -q --detach {wt} HEAD")
         if rc:
             return seed, {"error": out}
-        rc, out = sh(f"git apply {seed}/patch.diff", cwd=wt)
+        rc, out = sh(f"git apply {seed}/{patch_name}", cwd=wt)
         if rc:
             return seed, {"error": "patch does not apply: " + out}
         for p in PROPS:
@@ -127,7 +127,26 @@ def matrix(root):
     return 0
 
 
+def twins(root):
+    """root/<name>/patchN.diff : behaviour-preserving refactorings.  Every check must stay silent (rc 0) on each of them."""
+    from concurrent.futures import ThreadPoolExecutor
+    jobs = []
+    for d in sorted(os.listdir(root)):
+        for f in sorted(os.listdir(os.path.join(root, d))):
+            if f.startswith("patch") and f.endswith(".diff"):
+                jobs.append((os.path.join(root, d), f))
+    res = {}
+    with ThreadPoolExecutor(max_workers=8) as ex:
+        for (d, f), (seed, fired) in zip(jobs, ex.map(lambda j: _score_in_worktree(*j), jobs)):
+            res[f"{os.path.basename(d)}/{f}"] = fired
+    sh("git -C /repo worktree prune")
+    print(json.dumps(res, indent=1))
+    return 0
+
+
 if __name__ == "__main__":
+    if len(sys.argv) == 3 and sys.argv[1] == "twins":
+        sys.exit(twins(sys.argv[2]))
     if len(sys.argv) == 3 and sys.argv[1] == "matrix":
         sys.exit(matrix(sys.argv[2]))
     if len(sys.argv) != 3 or sys.argv[1] not in ("confirm", "score"):
